@@ -16,7 +16,7 @@
   instance dictionary, table included.
 
   `validates`: whether `cycle_init_timesteps` re-derives a table that no longer matches the current durations / offset.
-  The CURRENT source does not (`validates = false`); proposed_fixes/C17_cycle_table_follows_elements.patch makes it do so
+  The CURRENT source does (`validates = true`, /repo fix 233baea; before it: `false`, the witnesses `C17_witness_*_stale` are about that legacy variant)
   (then flip the constant; `C17_hist_follows_definition_validating` is the unconditional theorem for that code).
 -/
 import CRModel.TrafficLight
@@ -61,7 +61,7 @@ inductive Op where
 
 /-- Does `cycle_init_timesteps` notice a table that no longer belongs to the current durations / offset?
     Current source (traffic_light.py:173-179): no. -/
-def validates : Bool := false
+def validates : Bool := true
 
 /-- the table a read of `cycle_init_timesteps` returns (and leaves in the object) -/
 def fillWith (v : Bool) (o : Obj) : List Int :=
